@@ -70,14 +70,16 @@ def gen_rare_table(R):
     n_common = R.choice([30, 80, 200])
     vals, ids1, ids2, nums = [], [], [], []
     eid = 0
-    for lab in ["alpha", "beta", "gamma"][:R.randint(1, 3)]:
+    commons = ["alpha", "beta", "gamma"][:R.randint(1, 3)]
+    if R.random() < 0.4: commons = [""] + commons[:2]      # blank (not null) cells held by many entities: '' is a string like any other and sorts first
+    for lab in commons:
         for _ in range(n_common):
             eid += 1
             for _ in range(R.choice([1, 1, 3])):
                 vals.append(lab); ids1.append(eid); ids2.append(eid % 7 + 1); nums.append(R.randint(0, 5))
     for k in range(R.randint(1, 4)):            # rare strings: held by < lt entities, possibly with very many rows
         ne = R.randint(1, max(1, lt - 1)); rows_per = R.choice([1, 5, 60])
-        lab = R.choice(["aaa-rare", "zzz-rare", "mid-rare", "beta-rare"]) + str(k)
+        lab = R.choice(["aaa-rare", "zzz-rare", "mid-rare", "beta-rare", " ", "!first"]) + str(k)
         if R.random() < 0.35:          # a rare string that differs from a well-populated one only in case / by a trailing blank / by an accent
             lab = R.choice(["Alpha", "ALPHA", "Beta", "alpha ", "alphá", "Gamma"])
         for e in range(ne):
